@@ -379,6 +379,7 @@ _EXTRA7 = {
     "C02": "Also (round 7): the precomputed tree-hash table is consulted only for allocator small-ints, under its bounds guard (shared C17.1).",
     "C09": "Also (round 7): the trusted helpers evaluate under ChiaDialect::new(flags.to_clvm_flags()) with the caller's flags unmasked; "
            "is_high_priority_condition is true exactly for AGG_SIG_* (43..50) and CREATE_COIN (51) (decision table over every u16) (C09.8).",
+    "C11": "Also (round 7): every path of sanitize_uint that returns a value for an atom with a zero first byte has tested a second byte's top bit as set.",
     "C12": "Also (round 7): no integer of the Merkle set / proof code is narrowed beyond the reviewed index widths (node index u32, bit position "
            "u8); from_leafs hands its leaf slice to the tree builder whole (C12.5).",
     "C16": "Also (round N): the G1 flag rule is additionally decided as a decision table evaluated on all 256 first bytes x zero-body x "
